@@ -84,6 +84,7 @@ pub fn exec_run_opt(script: &RunScript, keep_log: bool, keep_text: bool, watchdo
   let seq: Arc<std::sync::atomic::AtomicU64> = Arc::new(std::sync::atomic::AtomicU64::new(0));
   let threads: Arc<Vec<Vec<Op>>> = Arc::new(script.threads.clone());
   let alloc_period: u32 = script.alloc_period;
+  crate::sched::RUN_ALLOC_PERIOD.store(alloc_period, std::sync::atomic::Ordering::SeqCst);
   let ev2 = evals.clone();
   let body = move |tid: usize| {
     let ops = &threads[tid];
